@@ -193,7 +193,9 @@ def run(ctx):
               % (later[0].text(), later[0].lineno, ln.lineno) if later else '', ff.loc(ln.ast), instance='lock-last')
     # every path to the lock passes the hook loop exhausted
     hl = hook_loops[0]
-    w = witness(g, g.entry.id, [ln.id], avoid=[hl.id])
+    w = None
+    for cand in lock_nodes:
+      w = w or witness(g, g.entry.id, [cand.id], avoid=[hl.id])
     ctx.check(w is None, 'C12.finalize-order', fcon, 'the lock is reached only after the hook loop',
               'the lock can be set without running the hooks', ff.loc(ln.ast), instance='hooks-before-lock',
               path=describe_path(g, w) if w else None)
@@ -220,6 +222,11 @@ def run(ctx):
   ctx.check(ok, 'C12.clear', construct(cf), 'clear_config unlocks on every path to its normal exit',
             'clear_config can return without unlocking the configuration', cf.loc(), instance='unlocks')
 
+  from .common import loop_examines_all
+  loop_examines_all(ctx, 'C12.hooks', 'config.find_unknown_references_hook',
+                    lambda f_, n_: n_.kind == 'for' and '_iterate_flattened_values' in u(n_.ast.iter), 'unknown-reference hook')
+  loop_examines_all(ctx, 'C12.hooks', 'config.find_missing_overrides_hook',
+                    lambda f_, n_: n_.kind == 'test' and 'isinstance(' in u(n_.ast) and 'ConfigurableReference' in u(n_.ast), '%gin.REQUIRED hook')
   # ---- C12.hooks
   reg = ctx.func('config.register_finalize_hook')
   app = [c for c in walk_local(reg.node) if isinstance(c, ast.Call) and u(c.func) == '_FINALIZE_HOOKS.append']
